@@ -12,7 +12,7 @@ PKG = "internal/index/manager"
 
 # which trace-spec predicates decide which property
 PRED_PROP = {
-    "C06.NeverStale": "C06", "C06.SearchRight": "C06", "C06.ShownRight": "C06", "C06.ShownRightOnDemand": "C06", "C06.truth-undefined": "C06",
+    "C06.NeverStale": "C06", "C06.SearchRight": "C06", "C06.ShownRight": "C06", "C06.ShownRightOnDemand": "C06", "C06.SearchRightCombined": "C06", "C06.truth-undefined": "C06",
     "C10.FreshViewShowsIndexList": "C10", "C10.ViewComplete": "C10", "C10.ViewStable": "C10", "C08.OneIdPerConn": "C10",
     "C13.ViewReadFails": "C13", "C13.ServedFileGone": "C13", "C13.JobReadFails": "C13", "C13.NoUseAfterFree": "C13", "C13.Balanced": "C13",
     "C13.LockCount": "C13", "C13.DirExactWhenQuiet": "C13", "C13.NoLeak": "C13",
